@@ -7,7 +7,7 @@ import itertools
 
 import z3
 import z3 as z3  # noqa: F811
-from z3 import And, BoolVal, Const, Exists, ForAll, Function, If, Implies, IntVal, Not, Or
+from z3 import And, BoolVal, Const, Exists, ForAll, Function, If, Implies, IntVal, MultiPattern, Not, Or
 
 I = z3.IntSort()
 B = z3.BoolSort()
@@ -129,9 +129,18 @@ COMPONENTS.update(
         "pos": ((Ref,), I), "rank": ((Ref,), I), "cpos": ((Ref,), I),
         # ghost re-entrancy depth of the current thread per lock object (C18)
         "held": ((Ref,), I),
+        # ghost length of the event trace of a traversal callback (C06): how often call_traversal_cb has been entered with it
+        "tlen": ((Val,), I),
     }
 )
-GHOST = ("pos", "rank", "cpos", "held")
+GHOST = ("pos", "rank", "cpos", "held", "tlen")
+# the event trace itself is a prophecy: TN(cb, i) / TK(cb, i) = node and kind of the i-th event of callback cb.  An event is
+# *defined* at the exit of call_traversal_cb (index tlen(cb), then tlen(cb) += 1); every index is assigned at most once on a
+# path because tlen only grows, so the defining equalities are consistent.
+TN = Function("TN", Val, I, Ref)
+TK = Function("TK", Val, I, I)
+EV_CONT, EV_SKIP, EV_STOP, EV_ERR = 0, 1, 2, 3
+ST_DONE = 0  # status of a finished traversal segment; otherwise EV_STOP / EV_ERR
 
 
 class Heap:
@@ -436,6 +445,60 @@ def leaf_count(h: Heap):
         ])
         _LEAFCNT[key] = F
     return _LEAFCNT[key]
+
+
+_VISIT: dict = {}
+
+
+def visit_spec(h: Heap):
+    """Grammar of the event trace of the depth-first visits, as *introduction rules* of four relations (least fixed point: what
+    is derivable from them is a visit in the documented order).  cb: callback, n: node, [i, j): index range of the trace,
+    st: 0 = ran to completion, EV_STOP / EV_ERR = ended by that event.
+      VKp(cb,n,k,i,m)   the children 0..k-1 of n were visited in pre-order, completely, by the events [i,m)
+      VPre(cb,n,i,j,st) the events [i,j) are the pre-order visit of the branch n: n first; a skip answer at n ends it; a
+                        stop / error anywhere ends it with that status
+      VKq / VPost       the same for post-order: children first, then the node; a skip answer has no effect there"""
+    key = (h.syms["_children"].name(), h.syms["llen"].name(), h.syms["litem"].name())
+    if key in _VISIT:
+        return _VISIT[key]
+    k0 = len(_VISIT)
+    VPre = Function(f"VPre<{k0}>", Val, Ref, I, I, I, B)
+    VKp = Function(f"VKp<{k0}>", Val, Ref, I, I, I, B)
+    VPost = Function(f"VPost<{k0}>", Val, Ref, I, I, I, B)
+    VKq = Function(f"VKq<{k0}>", Val, Ref, I, I, I, B)
+    cb, n = Const(f"cb!v{k0}", Val), Const(f"n!v{k0}", Ref)
+    i, j, m, k, st, c, i1 = (Const(f"{x}!v{k0}", I) for x in ("i", "j", "m", "k", "st", "c", "i1"))
+    bad = lambda s: Or(s == EV_STOP, s == EV_ERR)  # noqa: E731
+    MP = MultiPattern
+    # patterns hold variables only (no arithmetic, no If): successor indices and child counts are named by equations
+    SPEC_AXIOMS.extend([
+        # ---- pre-order
+        ForAll([cb, n, i], VKp(cb, n, 0, i, i), patterns=[VKp(cb, n, 0, i, i)]),
+        ForAll([cb, n, k, i, m, j], Implies(And(VKp(cb, n, k, i, m), 0 <= k, k < h.clen(n), VPre(cb, h.child(n, k), m, j, ST_DONE)), VKp(cb, n, k + 1, i, j)),
+               patterns=[MP(VKp(cb, n, k, i, m), VPre(cb, h.child(n, k), m, j, ST_DONE))]),
+        ForAll([cb, n, i, j], Implies(And(TN(cb, i) == n, TK(cb, i) == EV_SKIP, j == i + 1), VPre(cb, n, i, j, ST_DONE)), patterns=[VPre(cb, n, i, j, ST_DONE)]),
+        ForAll([cb, n, i, j, st], Implies(And(TN(cb, i) == n, TK(cb, i) == st, bad(st), j == i + 1), VPre(cb, n, i, j, st)), patterns=[VPre(cb, n, i, j, st)]),
+        ForAll([cb, n, i, j, c, i1], Implies(And(TN(cb, i) == n, TK(cb, i) == EV_CONT, i1 == i + 1, c == h.clen(n), VKp(cb, n, c, i1, j)), VPre(cb, n, i, j, ST_DONE)),
+               patterns=[MP(VPre(cb, n, i, j, ST_DONE), VKp(cb, n, c, i1, j))]),
+        ForAll([cb, n, k, i, i1, m, j, st], Implies(And(TN(cb, i) == n, TK(cb, i) == EV_CONT, i1 == i + 1, VKp(cb, n, k, i1, m), 0 <= k, k < h.clen(n), VPre(cb, h.child(n, k), m, j, st), bad(st)), VPre(cb, n, i, j, st)),
+               patterns=[MP(VPre(cb, n, i, j, st), VKp(cb, n, k, i1, m), VPre(cb, h.child(n, k), m, j, st))]),
+        # (a leaf needs no child segment: derived rules, stated so that they fire on the goal alone)
+        ForAll([cb, n, i, j], Implies(And(h.clen(n) == 0, TN(cb, i) == n, TK(cb, i) == EV_CONT, j == i + 1), VPre(cb, n, i, j, ST_DONE)), patterns=[VPre(cb, n, i, j, ST_DONE)]),
+        ForAll([cb, n, i, j], Implies(And(h.clen(n) == 0, TN(cb, i) == n, Or(TK(cb, i) == EV_CONT, TK(cb, i) == EV_SKIP), j == i + 1), VPost(cb, n, i, j, ST_DONE)), patterns=[VPost(cb, n, i, j, ST_DONE)]),
+        ForAll([cb, n, i, j, st], Implies(And(h.clen(n) == 0, TN(cb, i) == n, TK(cb, i) == st, bad(st), j == i + 1), VPost(cb, n, i, j, st)), patterns=[VPost(cb, n, i, j, st)]),
+        # ---- post-order
+        ForAll([cb, n, i], VKq(cb, n, 0, i, i), patterns=[VKq(cb, n, 0, i, i)]),
+        ForAll([cb, n, k, i, m, j], Implies(And(VKq(cb, n, k, i, m), 0 <= k, k < h.clen(n), VPost(cb, h.child(n, k), m, j, ST_DONE)), VKq(cb, n, k + 1, i, j)),
+               patterns=[MP(VKq(cb, n, k, i, m), VPost(cb, h.child(n, k), m, j, ST_DONE))]),
+        ForAll([cb, n, i, m, j, c], Implies(And(VKq(cb, n, c, i, m), c == h.clen(n), TN(cb, m) == n, Or(TK(cb, m) == EV_CONT, TK(cb, m) == EV_SKIP), j == m + 1), VPost(cb, n, i, j, ST_DONE)),
+               patterns=[MP(VPost(cb, n, i, j, ST_DONE), VKq(cb, n, c, i, m))]),
+        ForAll([cb, n, i, m, j, c, st], Implies(And(VKq(cb, n, c, i, m), c == h.clen(n), TN(cb, m) == n, TK(cb, m) == st, bad(st), j == m + 1), VPost(cb, n, i, j, st)),
+               patterns=[MP(VPost(cb, n, i, j, st), VKq(cb, n, c, i, m))]),
+        ForAll([cb, n, k, i, m, j, st], Implies(And(VKq(cb, n, k, i, m), 0 <= k, k < h.clen(n), VPost(cb, h.child(n, k), m, j, st), bad(st)), VPost(cb, n, i, j, st)),
+               patterns=[MP(VPost(cb, n, i, j, st), VKq(cb, n, k, i, m), VPost(cb, h.child(n, k), m, j, st))]),
+    ])
+    _VISIT[key] = (VPre, VKp, VPost, VKq)
+    return _VISIT[key]
 
 
 _HEIGHT: dict = {}
